@@ -1,0 +1,143 @@
+//go:build verif
+
+// Contracts for the deductive verification in /verif (comment-only file: with
+// the "verif" build tag off it does not exist for the compiler, with it on it
+// compiles to nothing). The //@ blocks are read by /verif/bin/vc.
+
+package agent
+
+// ---------------------------------------------------------------- RPC gate: handshake and authentication (C24)
+
+// replies written to the client connection: ghost log "ipcsent" (sequence number) / "ipcsenterr" (error string)
+//@ func (c *IPCClient) Send(header *responseHeader, obj any) (err error)
+//@   trusted
+//@   assigns LogN_ipcsent:Int, Log_ipcsent:(Array Int Int), Log_ipcsenterr:(Array Int Str), Log_ipcsentobj:(Array Int Bool)
+//@   ensures logged: logN("ipcsent") == old(logN("ipcsent"))+1 && logAt[uint64]("ipcsent", old(logN("ipcsent"))) == header.Seq &&
+//@       logAt[string]("ipcsenterr", old(logN("ipcsent"))) == header.Error && logAt[bool]("ipcsentobj", old(logN("ipcsent"))) == (obj != nil)
+//@ end
+
+// the commands proper: whatever they do counts as "taking effect"; their calls are logged
+//@ func (i *AgentIPC) handleEvent(client *IPCClient, seq uint64) (err error)
+//@   trusted
+//@   logcalls
+//@ end
+//@ func (i *AgentIPC) handleForceLeave(client *IPCClient, seq uint64) (err error)
+//@   trusted
+//@   logcalls
+//@ end
+//@ func (i *AgentIPC) handleJoin(client *IPCClient, seq uint64) (err error)
+//@   trusted
+//@   logcalls
+//@ end
+//@ func (i *AgentIPC) handleMembers(client *IPCClient, command string, seq uint64) (err error)
+//@   trusted
+//@   logcalls
+//@ end
+//@ func (i *AgentIPC) handleInstallKey(client *IPCClient, seq uint64) (err error)
+//@   trusted
+//@   logcalls
+//@ end
+//@ func (i *AgentIPC) handleUseKey(client *IPCClient, seq uint64) (err error)
+//@   trusted
+//@   logcalls
+//@ end
+//@ func (i *AgentIPC) handleRemoveKey(client *IPCClient, seq uint64) (err error)
+//@   trusted
+//@   logcalls
+//@ end
+//@ func (i *AgentIPC) handleListKeys(client *IPCClient, seq uint64) (err error)
+//@   trusted
+//@   logcalls
+//@ end
+//@ func (i *AgentIPC) handleStream(client *IPCClient, seq uint64) (err error)
+//@   trusted
+//@   logcalls
+//@ end
+//@ func (i *AgentIPC) handleMonitor(client *IPCClient, seq uint64) (err error)
+//@   trusted
+//@   logcalls
+//@ end
+//@ func (i *AgentIPC) handleStop(client *IPCClient, seq uint64) (err error)
+//@   trusted
+//@   logcalls
+//@ end
+//@ func (i *AgentIPC) handleLeave(client *IPCClient, seq uint64) (err error)
+//@   trusted
+//@   logcalls
+//@ end
+//@ func (i *AgentIPC) handleTags(client *IPCClient, seq uint64) (err error)
+//@   trusted
+//@   logcalls
+//@ end
+//@ func (i *AgentIPC) handleQuery(client *IPCClient, seq uint64) (err error)
+//@   trusted
+//@   logcalls
+//@ end
+//@ func (i *AgentIPC) handleRespond(client *IPCClient, seq uint64) (err error)
+//@   trusted
+//@   logcalls
+//@ end
+//@ func (i *AgentIPC) handleStats(client *IPCClient, seq uint64) (err error)
+//@   trusted
+//@   logcalls
+//@ end
+//@ func (i *AgentIPC) handleGetCoordinate(client *IPCClient, seq uint64) (err error)
+//@   trusted
+//@   logcalls
+//@ end
+
+// the handshake: the version is set once, and only to a supported version the client asked for
+//@ func (i *AgentIPC) handleHandshake(client *IPCClient, seq uint64) (err error)
+//@   logcalls
+//@   requires wf: i != nil && client != nil && client.dec != nil
+//@   oldlet n0 := logN("ipcsent")
+//@   oldlet v0 := client.version
+//@   oldlet ok := nextDecodeOK[handshakeRequest](client.dec)
+//@   oldlet req := nextDecoded[handshakeRequest](client.dec)
+//@   ensures version_set_once [C24]: client.version == ite(ok && v0 == 0 && req.Version >= MinIPCVersion && req.Version <= MaxIPCVersion, req.Version, v0)
+//@   ensures auth_untouched [C24]: client.didAuth == old(client.didAuth)
+//@   ensures one_reply_with_seq [C24,C25]: ok ==> logN("ipcsent") == n0+1 && logAt[uint64]("ipcsent", n0) == seq && !logAt[bool]("ipcsentobj", n0)
+//@   ensures failure_reported [C24]: ok && client.version == v0 ==> logAt[string]("ipcsenterr", n0) != ""
+//@   ensures undecodable_no_effect [C24]: !ok ==> err != nil && logN("ipcsent") == n0 && client.version == v0
+//@ end
+
+// authentication: the flag is raised exactly when the presented key equals the configured one
+//@ func (i *AgentIPC) handleAuth(client *IPCClient, seq uint64) (err error)
+//@   logcalls
+//@   requires wf: i != nil && client != nil && client.dec != nil
+//@   oldlet n0 := logN("ipcsent")
+//@   oldlet a0 := client.didAuth
+//@   oldlet ok := nextDecodeOK[authRequest](client.dec)
+//@   oldlet req := nextDecoded[authRequest](client.dec)
+//@   ensures authenticated_only_by_key [C24]: client.didAuth == (a0 || (ok && req.AuthKey == i.authKey))
+//@   ensures version_untouched [C24]: client.version == old(client.version)
+//@   ensures one_reply_with_seq [C24,C25]: ok ==> logN("ipcsent") == n0+1 && logAt[uint64]("ipcsent", n0) == seq && !logAt[bool]("ipcsentobj", n0)
+//@   ensures wrong_key_reported [C24]: ok && req.AuthKey != i.authKey ==> logAt[string]("ipcsenterr", n0) == invalidAuthToken
+//@ end
+
+// the gate itself
+//@ pure func isGateCommand(c string) bool { return c == handshakeCommand || c == authCommand }
+//@ func (i *AgentIPC) handleRequest(client *IPCClient, reqHeader *requestHeader) (err error)
+//@   requires wf: i != nil && client != nil && client.dec != nil && reqHeader != nil
+//@   oldlet n0 := logN("ipcsent")
+//@   oldlet c0 := callN()
+//@   oldlet shaken := client.version != 0
+//@   oldlet authed := i.authKey == "" || client.didAuth
+//@   oldlet cmd := reqHeader.Command
+//@   # before the handshake nothing but the handshake runs; the command is answered with an error carrying its sequence number
+//@   ensures handshake_first [C24]: !shaken && cmd != handshakeCommand ==> callN() == c0 && err != nil &&
+//@       logN("ipcsent") == n0+1 && logAt[uint64]("ipcsent", n0) == reqHeader.Seq && logAt[string]("ipcsenterr", n0) == handshakeRequired && !logAt[bool]("ipcsentobj", n0) &&
+//@       client.version == 0 && client.didAuth == old(client.didAuth)
+//@   # with a key configured, nothing but handshake and auth runs or returns data before the key was presented
+//@   ensures auth_first [C24]: shaken && !authed && !isGateCommand(cmd) ==> callN() == c0 &&
+//@       logN("ipcsent") == n0+1 && logAt[uint64]("ipcsent", n0) == reqHeader.Seq && logAt[string]("ipcsenterr", n0) == authRequired && !logAt[bool]("ipcsentobj", n0) &&
+//@       client.didAuth == old(client.didAuth) && client.version == old(client.version)
+//@   # whatever runs, runs once, and only the two gate commands run while the gate is closed
+//@   ensures at_most_one_handler [C24]: callN() <= c0+1
+//@   ensures gate_closed_only_gate_commands [C24]: (!shaken || !authed) && callN() == c0+1 ==>
+//@       callIs(c0, "AgentIPC.handleHandshake") || (shaken && callIs(c0, "AgentIPC.handleAuth"))
+//@   ensures unknown_command_rejected [C24]: shaken && authed && callN() == c0 ==> err != nil && logN("ipcsent") == n0+1 &&
+//@       logAt[uint64]("ipcsent", n0) == reqHeader.Seq && logAt[string]("ipcsenterr", n0) == unsupportedCommand
+//@ end
+
+// END-OF-CONTRACTS
